@@ -554,7 +554,7 @@ func c12Reencode(p *Prog, r *Report, or *overrideRoles, rule string) {
 	}
 	// no *frame.Frame allocation flows into request.frm anywhere in package proxy
 	req := p.proxyRequestType()
-	frmF := p.Field("proxy", req.Obj().Name(), "frm")
+	frmF := requestFrameField(p, req)
 	var fb []string
 	n := 0
 	for _, fn := range p.ScopedFuncs("proxy") {
@@ -621,7 +621,7 @@ func c12IsSelect(p *Prog, r *Report, or *overrideRoles) {
 		s := newSim(p)
 		s.MaxNodes = 60000
 		s.Inline = func(f *ssa.Function) bool {
-			return f.Pkg == hq.Pkg && recvNamed(f) == nil && f.Parent() == nil && callsDirectlyOrIs(f, "isHandled")
+			return f.Pkg == hq.Pkg && recvNamed(f) == nil && f.Parent() == nil && onlyCalledFrom(p, f, hq, 2) && f.Signature.Results().Len() == hq.Signature.Results().Len()
 		}
 		s.Model = func(sm *Sim, st *State, call ssa.CallInstruction, callee *ssa.Function) []*State {
 			if callee != nil && isGeneratedLexer(callee) && recvNamed(callee) == lex {
